@@ -93,6 +93,14 @@ def build_jobs(tier: str) -> list:
             elif q['Reservoir Model'] == 3:
                 q['Drawdown Parameter'] = gen.fmt(rng.uniform(1e-4, 5e-4))
         q['Plant Lifetime'] = rng.choice([3, 10, 20, 30, 40])
+        if k % 8 == 3 and q['Reservoir Model'] in (4, 3):
+            # drawdown strong enough to pass the injection temperature before the end of the life, and no redrilling allowed:
+            # the history must keep falling (nothing resets it)
+            L = rng.choice([10, 20, 30, 40])
+            q['Plant Lifetime'] = L
+            q['Maximum Drawdown'] = 1
+            q['Drawdown Parameter'] = gen.fmt(min(0.2, rng.uniform(1.05, 2.5) / L)) if q['Reservoir Model'] == 4 else gen.fmt(rng.uniform(2e-3, 8e-3))
+            tag += '+overdrawn'
         jobs.append((tag, gen.to_text(q)))
     for name, text in sim.example_inputs().items():
         if name.startswith(('Beckers', 'example6', 'example7', 'MC_', 'SUTRA', 'example_SBT', 'Wanju')):
